@@ -453,13 +453,16 @@ func init() {
 			case k%50 == 13:
 				sizes := []int{2048, 8192, 8192}
 				if c.P.Thorough() {
-					sizes = []int{2048, 8192, 32768, 131072}
+					// (not larger: a pair is measured at n and 8n, and the recorded quadratic shape — unterminated comment
+					// openers, 5.4 s at 120 KB — needs minutes of CPU at 1 MB; the verdict is the same at 256 KB. The first
+					// thorough run with 131072 had the watchdog confirm "hangs" that were that known finding at 1 MB.)
+					sizes = []int{2048, 8192, 32768}
 				}
 				c01Scaling(c, r.Intn(len(c01Shapes)), pickVersion(r), sizes[r.Intn(len(sizes))])
 			case k == 21:
 				// a big stress shape through the full set of per-call monitors
 				sh := c01Shapes[r.Intn(len(c01Shapes))]
-				n := c.P.Pick(20000, 300000)
+				n := c.P.Pick(20000, 60000)
 				c01Case(c, sh.make(r.Range(n/2, n)), c01Versions(r), "shape:"+sh.name)
 			default:
 				var prog func(*core.Rand) []byte
